@@ -224,7 +224,7 @@ def history_cases(ctx, sc, dist, steps=None):
     flagsets = [(sb, scs, "Grammar") for sb in (False, True) for scs in (False, True)]
     kinds = ["flags"] * 6 + ["move-markov"] * 2 + ["drop-base", "reweight-base", "reweight-terminal", "add-value", "remove-value",
                                                     "edit_rules", "retrain", "same"]
-    for hno in range(1 if steps is not None else ctx.scale(24, 240)):
+    for hno in range(1 if steps is not None else ctx.scale(30, 600)):
         if steps is None:
             rs = rulesets.gen_ruleset(ctx.rng, with_markov=False, max_bases=4, max_len=4)
             rs = place_markov(rs, ctx.rng, ctx.rng.choice(["first", "middle", "last", "absent", "alone"]))
